@@ -56,6 +56,7 @@ type report struct {
 	SyncImport []string       `json:"sync_imports"`
 	Yields     int            `json:"yields"`
 	RMWSplits  int            `json:"rmw_splits"`
+	MapWrites  int            `json:"map_writes_instrumented"`
 	Channels   []string       `json:"channel_ops"` // not simulated: reported so that the harness can warn
 	Skipped    []string       `json:"skipped"`
 }
@@ -350,6 +351,48 @@ func yieldList(fset *token.FileSet, info *types.Info, list []ast.Stmt, fe *fileE
 		fe.needSimrt = true
 		rep.Yields++
 		fe.edits = append(fe.edits, edit{off(st.Pos()), off(st.Pos()), "simrt.Y(); ", 10})
+
+		// map writes: happens-before race check (simrt.MW)
+		mapWrite := func(target ast.Expr) {
+			ix, isMap := isMapIndex(info, target)
+			if !isMap || !shared(info, ix.X) || !pure(ix.X) {
+				return
+			}
+			m := src(fset, ix.X)
+			if m == "" || strings.Contains(m, "\n") {
+				return
+			}
+			pos := fset.Position(st.Pos())
+			fe.edits = append(fe.edits, edit{off(st.Pos()), off(st.Pos()), fmt.Sprintf("simrt.MW(%s, %q); ", m, fmt.Sprintf("%s:%d", filepath.Base(pos.Filename), pos.Line)), 5})
+			rep.MapWrites++
+		}
+		switch x := st.(type) {
+		case *ast.AssignStmt:
+			if x.Tok != token.DEFINE {
+				for _, l := range x.Lhs {
+					mapWrite(l)
+				}
+			}
+		case *ast.IncDecStmt:
+			mapWrite(x.X)
+		case *ast.ExprStmt:
+			if call, ok := x.X.(*ast.CallExpr); ok && len(call.Args) == 2 {
+				if id, ok := call.Fun.(*ast.Ident); ok && id.Name == "delete" {
+					if _, isB := info.Uses[id].(*types.Builtin); isB {
+						if t := info.TypeOf(call.Args[0]); t != nil {
+							if _, isMap := t.Underlying().(*types.Map); isMap && shared(info, call.Args[0]) && pure(call.Args[0]) {
+								m := src(fset, call.Args[0])
+								if m != "" && !strings.Contains(m, "\n") {
+									pos := fset.Position(st.Pos())
+									fe.edits = append(fe.edits, edit{off(st.Pos()), off(st.Pos()), fmt.Sprintf("simrt.MW(%s, %q); ", m, fmt.Sprintf("%s:%d", filepath.Base(pos.Filename), pos.Line)), 5})
+									rep.MapWrites++
+								}
+							}
+						}
+					}
+				}
+			}
+		}
 
 		// read-modify-write splitting
 		switch x := st.(type) {
